@@ -3,6 +3,7 @@
 From PyxisModel Require Import Base Sexp Grammar SemTypes Registry Sem Emit.
 From PyxisModel Require C03Core.
 From PyxisModel Require Import Syntax.
+From PyxisModel Require WholeBuild OrderIndep.
 Local Open Scope string_scope.
 Local Open Scope list_scope.
 
@@ -48,6 +49,18 @@ Definition run_model (ptr : N) (ks : list N) (mods : list (path * gmodule)) : se
                         SList (Atom "registry" :: registry_dump st)]
     | Defer => SList [Atom "model"; SList [Atom "verdict"; SList [Atom "panic"; Str "model: defer in emit"]]]
     end
+  end.
+
+(** the decidable hypotheses of the whole-build theorems (C01/C02/C08 [_whole_build]: collision_free;
+    C09/C10 order independence: collision_free and clean), evaluated on the case, so that every run
+    reports on how many of its inputs those theorems speak *)
+Definition side_conditions (ptr : N) (mods : list (path * gmodule)) : sexp :=
+  match WholeBuild.input_state ptr mods with
+  | Ok st0 =>
+    SList [Atom "hyps";
+           SList [Atom "collision_free"; Atom (if WholeBuild.collision_freeb (st_reg st0) then "1" else "0")];
+           SList [Atom "clean"; Atom (if OrderIndep.clean_stateb st0 then "1" else "0")]]
+  | _ => SList [Atom "hyps"; SList [Atom "no_input_state"]]
   end.
 
 Definition case_of_sexp (e : sexp) : option (N * list N * list (path * gmodule)) :=
@@ -154,7 +167,11 @@ Definition run_case_sexp (e : sexp) : sexp :=
   match tagged "c18" e with Some args => run_c18 args | None =>
   match tagged "c03" e with Some fields => run_c03 fields | None =>
   match case_of_sexp e with
-  | Some (ptr, ks, mods) => run_model ptr ks mods
+  | Some (ptr, ks, mods) =>
+    match run_model ptr ks mods with
+    | SList l => SList (l ++ [side_conditions ptr mods])
+    | x => x
+    end
   | None => SList [Atom "model"; SList [Atom "bad_case"]]
   end end end.
 
